@@ -77,10 +77,6 @@ def parseSample (n : Nat) (j : Json) : R (Fin n → Bool) := do
   if a.size != n then .error "sample: wrong length" else
   return fun s => a[s.val]! == 1
 
-/-- the default dictionary `create_dict()` -/
-def defaultDict (c : Char) : M2 Float :=
-  if c == 'X' then Unitaries.dX else if c == 'Y' then Unitaries.dY else Unitaries.dZ
-
 def resOut (r : Except PyErr (Res Float)) : Json :=
   match r with
   | .ok ⟨k, v⟩ => Json.mkObj [("kind", .str k.toString), ("val", fOut v)]
